@@ -170,3 +170,19 @@ __CPROVER_ensures(this_->_future != 0 ==> (gh_se_calls == 1 && gh_se_this == (vo
 ;
 void h_ap_unhandled(void) { APR *p; ap_unhandled(p); __CPROVER_assert(0, "SENTINEL reachable"); }
 #endif
+/* co_awaiter::await_resume(): the awaiting coroutine receives exactly the embedded future's outcome (value() of THAT future: value by
+ * reference, or the stored exception / await_canceled rethrown) - forwarder unit, future<int>::value() is an abstract callee (C01 unit value) */
+#ifdef CV_HAS_caw_await_resume
+int gh_val_calls; void *gh_val_this; cv_i32 gh_val_cell; int gh_val_throws;
+#ifdef CV_HAS_fu_value_stub
+cv_i32 *fu_value_stub(FUT *f) { gh_val_calls++; gh_val_this = f; if (gh_val_throws) { cv_exc_pending = 1; return 0; } return &gh_val_cell; }
+#endif
+cv_i32 *caw_await_resume(CAW *this_)
+__CPROVER_requires(cv_exc_pending == 0 && gh_val_calls == 0 && __CPROVER_is_fresh(this_, sizeof(*this_)))
+__CPROVER_assigns(gh_val_calls, gh_val_this, cv_exc_pending)
+__CPROVER_ensures(gh_val_calls == 1 && gh_val_this == (void *)&this_->base_future)                    /* the outcome of the future the child was bound to, nobody else's */
+__CPROVER_ensures(gh_val_throws == 0 ==> (cv_exc_pending == 0 && __CPROVER_return_value == &gh_val_cell))   /* the value, by reference */
+__CPROVER_ensures(gh_val_throws != 0 ==> cv_exc_pending == 1)                                                 /* or the exception, propagated */
+;
+void h_caw_await_resume(void) { CAW *c; caw_await_resume(c); __CPROVER_assert(0, "SENTINEL reachable"); }
+#endif
